@@ -146,7 +146,7 @@ def run(rep, tier):
     rep.rule = ('every string over alphabets A = %r, B = %r and C (mixed) up to the stated length; non-trivial = tokenizes into '
                 'more than one token or more than one list segment (in-process), distinct = distinct string' % (SIGMA_A, SIGMA_B))
     rep.assumptions = [
-        'inputs limited to the three 14-symbol alphabets (A, B and C = the interacting characters of both) and the stated lengths; script layer limited to the listed block-keyword lines',
+        'inputs limited to the three 14-symbol alphabets (A, B and C = the interacting characters of both), the 8-symbol alphabet D = { } , \\ a . " 1 (brace groups x escapes, in-process layers only, two characters longer) and the stated lengths; script layer limited to the listed block-keyword lines',
         'pure stages run in-process through cicada::verif_hooks in forked workers; PATH is empty there, so command substitution runs only not-found commands',
         'prefix-closed enumeration: highlighting / word-start of "every prefix" is covered because every shorter string is itself a case',
         'hang = no progress for 2 s on a sub-millisecond case, confirmed alone with a 4x limit (in-process) / 10 s then 40 s (binary)',
